@@ -69,7 +69,7 @@ func (data MoveStakeData) basicCheck(tx *Transaction, context *state.CheckState)
 
 	if stake != nil && stake.Sign() == 1 {
 		wlStake.Add(wlStake, stake)
-	} else if wlStake.Cmp(data.Value) < 0 {
+	} else if stake == nil || wlStake.Cmp(data.Value) < 0 {
 		if wlStake.Sign() != 1 {
 			return &Response{
 				Code: code.StakeNotFound,
